@@ -34,7 +34,7 @@ pub enum QOp {
     /// rebuild the queue from its own listing / text / JSON
     Rebuild(Build),
     /// push and remove `n` orders under fresh reserved ids (leaves n dead tickets behind)
-    Stale(u16),
+    Stale(u32),
 }
 
 #[derive(Clone, Debug, PartialEq, Eq, Hash, Serialize, Deserialize)]
@@ -57,7 +57,7 @@ fn qcase(max_len: usize) -> BoxedStrategy<QCase> {
         1 => Just(QOp::IsEmpty),
         2 => Just(QOp::ToVec),
         2 => proptest::sample::select(vec![Build::FromVec, Build::From, Build::Text, Build::Json]).prop_map(QOp::Rebuild),
-        1 => prop_oneof![4 => 1u16..=8, 2 => 30u16..=40, 2 => 62u16..=70, 2 => 126u16..=134, 1 => 250u16..=260, 1 => 1020u16..=1030].prop_map(QOp::Stale),
+        1 => gen::size_class(17).prop_map(QOp::Stale),
     ];
     (gen::id_pool(3, 8), proptest::collection::vec(op, 0..=max_len))
         .prop_map(|(pool, ops)| QCase { pool, ops })
